@@ -15,6 +15,9 @@ SelfDot   == Path(FALSE, <<Step("self", NTNode, <<>>)>>)
 DosNode   == Step("descendant-or-self", NTNode, <<>>)
 
 Rel1(ax, nt)  == Path(FALSE, <<Step(ax, nt, <<>>)>>)
+Desc(nt)   == Path(TRUE, <<DosNode, Step("child", nt, <<>>)>>)            \* //nt
+DescP(nt, preds) == Path(TRUE, <<DosNode, Step("child", nt, preds)>>)   \* //nt[..]
+
 N(i) == NumLit(NumInt(i))
 
 \* one-step relative paths used inside predicates
@@ -208,11 +211,51 @@ PoolC09nest ==
     \cup {Call("starts-with", <<Call("normalize-space", <<x>>), Call("substring", <<x, N(2)>>)>>) : x \in StrLits(StrPool)}
 
 (***************************************************************************)
+(* C15: the typed matrix.  One representative expression per static type,  *)
+(* every function x every argument tuple of length 0..3 over the           *)
+(* representatives, every operator x ordered type pair, variables, every   *)
+(* axis name.  No expected value: the oracle is "no Go runtime error".     *)
+(***************************************************************************)
+Var(n) == [t |-> "var", n |-> n]
+TypeReps == {Call("true", <<>>), N(1), NaNExpr, Lit("a"), Lit(""), Rel1("child", NTAny), Rel1("child", NTName("zz")),
+             Desc(NTName("b"))}
+TypeRepsSmall == {Call("true", <<>>), N(1), Lit("a"), Rel1("child", NTAny), Rel1("child", NTName("zz"))}
+AllFunctions == {"last", "position", "count", "local-name", "namespace-uri", "name", "string", "concat", "starts-with",
+                 "contains", "ends-with", "substring-before", "substring-after", "substring", "string-length",
+                 "normalize-space", "translate", "boolean", "not", "true", "false", "number", "sum", "floor", "ceiling",
+                 "round", "lower-case", "string-join", "matches", "replace", "reverse", "id", "lang", "unknown-fn"}
+ArgTuples(R) == {<<>>} \cup {<<a>> : a \in R} \cup {<<a, b>> : a \in R, b \in R} \cup {<<a, b, c>> : a \in R, b \in R, c \in R}
+PoolC15fn(f, R) == {Call(f, args) : args \in ArgTuples(R)}
+AllBinOps == {"or", "and", "=", "!=", "<", "<=", ">", ">=", "+", "-", "*", "div", "mod"}
+ZeroOperands == {N(0), Lit("0"), Call("false", <<>>)}
+PoolC15ops == {Bin(op, l, r) : op \in AllBinOps, l \in TypeReps \cup ZeroOperands, r \in TypeReps \cup ZeroOperands}
+              \cup {Neg(x) : x \in TypeReps}
+              \cup {Bin(o1, Bin(o2, N(1), N(2)), N(3)) : o1 \in AllBinOps, o2 \in AllBinOps}
+              \cup {Union(l, r) : l \in TypeReps, r \in TypeReps}
+              \cup {Bin("=", Call("round", <<Dec(5, 1)>>), N(3)), Bin("+", Call("round", <<N(2)>>), N(1)),
+                    Call("string", <<Call("round", <<Dec(5, 1)>>)>>), Call("round", <<NaNExpr>>), Call("round", <<InfExpr>>),
+                    Bin("mod", N(1), N(0)), Bin("mod", Dec(1, 1), Dec(1, 2)), Bin("mod", InfExpr, N(2)), Bin("mod", NaNExpr, N(2))}
+AllAxisNames == Axes \cup {"namespace"}
+PoolC15misc ==
+    {Bin(op, Var("x"), N(1)) : op \in {"+", "=", "and", "<"}} \cup {Var("x"), Filter(Var("x"), <<>>, <<Step("child", NTAny, <<>>)>>),
+     Call("count", <<Var("x")>>), Path(FALSE, <<Step("child", NTAny, <<Var("x")>>)>>)}
+    \cup {Path(ab, <<Step(ax, nt, <<>>)>>) : ab \in BOOLEAN, ax \in AllAxisNames, nt \in {NTAny, NTNode, NTName("a")}}
+    \cup {Path(FALSE, <<Step(ax, NTAny, <<>>), Step("child", NTAny, <<>>)>>) : ax \in AllAxisNames}
+    \cup {Path(FALSE, <<Step("child", NTAny, <<>>), Step(ax, NTAny, <<>>), Step("child", NTAny, <<>>)>>) : ax \in AllAxisNames}
+    \cup {Path(FALSE, <<Step("child", NTAny, <<>>), Step(ax, NTNode, <<N(1)>>)>>) : ax \in AllAxisNames}
+    \cup {Filter(x, <<N(1)>>, <<>>) : x \in TypeReps} \cup {Filter(x, <<>>, <<Step("child", NTAny, <<>>)>>) : x \in TypeReps}
+    \cup {Path(FALSE, <<Step("child", NTAny, <<p>>)>>) : p \in {LastFn, PosFn, Bin("-", LastFn, N(1)), Bin("div", LastFn, N(2)),
+                                                               Bin("=", PosFn, Lit("1")), Bin("<", PosFn, Call("true", <<>>)),
+                                                               Call("count", <<LastFn>>), NaNExpr, InfExpr, Dec(3, 1), Neg(N(1))}}
+\* the same expressions as predicate and as function argument
+Wrap15(E) == E \cup {Path(FALSE, <<Step("child", NTAny, <<e>>)>>) : e \in E}
+               \cup {Call("string", <<e>>) : e \in E} \cup {Call("boolean", <<e>>) : e \in E}
+               \cup {Call("count", <<e>>) : e \in E}
+
+(***************************************************************************)
 (* Pools with modes for the API-history properties (C04, C05, C12)         *)
 (***************************************************************************)
 PE(e, m) == [e |-> e, m |-> m]
-Desc(nt)   == Path(TRUE, <<DosNode, Step("child", nt, <<>>)>>)            \* //nt
-DescP(nt, preds) == Path(TRUE, <<DosNode, Step("child", nt, preds)>>)   \* //nt[..]
 TA == NTName("a")
 TB == NTName("b")
 TC == NTName("c")
